@@ -12,8 +12,9 @@ ASSUMPTIONS = [
     "NaN ratios are outside the property's domain (its quantifier ranges over ratios in [0,1] and out-of-range ratios below 0 and above 1): "
     "TraceIdRatioBasedSampler(NaN) converts NaN to uint64_t, which is undefined behaviour in C++; the driver never constructs it, the theorems exclude NaN explicitly; "
     "+inf behaves as ratio >= 1, -inf as ratio <= 0 (generated and checked)",
-    "double arithmetic of the build is IEEE-754 binary64 with round-to-nearest-even, no excess precision, no FMA contraction of `ldexp(...) + product` "
-    "(x86-64 SSE2, g++ default -ffp-contract=fast only contracts a*b+c expressions, none occurs); libm modf/ldexp are exact; tied by the bit-exact comparison of threshold_ on every run",
+    "double arithmetic of the build is IEEE-754 binary64 with round-to-nearest-even, no excess precision and no fused multiply-add: the model rounds "
+    "`UINT32_MAX * ratio` and `ldexp(...) + product` separately, as the x86-64 baseline (SSE2, no FMA instructions) does; a target with FMA and GCC's default "
+    "-ffp-contract=fast could fuse the two and is outside the model; libm modf/ldexp are exact; tied by the bit-exact comparison of threshold_ on every run",
     "the host is little-endian (memcpy of the first 8 trace-id bytes into a uint64_t); tied by the correspondence run",
     "trace states are represented by their header text; the generator only produces headers h with ToHeader(FromHeader(h)) = h (distinct simple keys, at most 4 members)",
     "no span is active on the driver's thread when Tracer::StartSpan is called (the parent comes from StartSpanOptions::parent as a SpanContext)",
@@ -198,7 +199,7 @@ def rnd_pair(rng):
 
 
 def gen(rng, tier):
-    n = 1 if tier == "quick" else 25
+    n = 4 if tier == "quick" else 40
     cases = []
     # thresholds: every special value and its neighbours, then the structured random stream
     for d in SPECIAL:
@@ -211,10 +212,10 @@ def gen(rng, tier):
         for db in (-1, 0, 1):
             if b + db >= 0:
                 cases.append("THR %d" % (b + db))
-    for _ in range(500 * n):
+    for _ in range(1000 * n):
         cases.append("THR %d" % rnd_ratio_bits(rng))
     # monotonicity: pairs of ratios, ids aimed at the two thresholds
-    for _ in range(900 * n):
+    for _ in range(2000 * n):
         b1, b2 = rnd_pair(rng)
         aim = thr(dbl(rng.choice([b1, b2])))
         cases.append(mono(b1, b2, rnd_tid(rng, aim)))
@@ -223,7 +224,7 @@ def gen(rng, tier):
         for b2 in (b1, b1 + 1 if not is_nan_bits(b1 + 1) and b1 + 1 <= U64 else b1, bits(rng.choice(SPECIAL))):
             cases.append(mono(b1, b2, rnd_tid(rng, thr(d))))
     # single calls: every sampler shape x parent kind
-    for _ in range(500 * n):
+    for _ in range(800 * n):
         s = rnd_sampler(rng)
         cases.append("SS %s | %s | %s %s" % (s, rnd_parent(rng), hx(rnd_tid(rng, aim_of_sampler(s))), rnd_extra(rng)))
     # parent-based with a counting delegate: every flags byte, valid and invalid parents, every delegate kind
@@ -237,7 +238,7 @@ def gen(rng, tier):
         s = rnd_sampler(rng)
         cases.append("PB %s | %s | %s %s" % (s, rnd_parent(rng), hx(rnd_tid(rng, aim_of_sampler(s))), rnd_extra(rng)))
     # independence of everything but (trace id, ratio)
-    for _ in range(300 * n):
+    for _ in range(400 * n):
         b = rnd_ratio_bits(rng)
         cases.append("DEP %d %s | %s %s | %s %s" % (b, hx(rnd_tid(rng, thr(dbl(b)))), rnd_parent(rng), rnd_extra(rng), rnd_parent(rng), rnd_extra(rng)))
     # spans started through a Tracer
